@@ -292,6 +292,10 @@ def inject_fault(r, p, i):
         return ["intE", min((1 << n) + r.choice([0, 1, 5, (1 << n) * 3]), 2 ** 64 - 1), i[2]], "expr"
     if k in ("address", "stbytes") and tag in ("bytesC", "bytesE"):
         want = 32 if k == "address" else p[1]
+        if want > 0 and r.random() < 0.3:
+            # an expression that is a TEXT literal with `want` characters but more bytes (non-ASCII): the program must fail
+            ch = r.choice(["\u00ff", "\u00e9", "\u20ac"])
+            return ["bytesE", (ch * want).encode("utf-8").hex(), "utf8lit"], "expr"
         bad = bytes(r.choice([want + 1, max(want - 1, 0) if want > 0 else 1]))
         if len(bad) == want:
             return None
@@ -405,6 +409,8 @@ class Builder:
         pt = self.pt
         if i[2] == "arg":
             return pt.Txn.application_args[i[3]]
+        if i[2] == "utf8lit":
+            return pt.Bytes(bytes.fromhex(i[1]).decode("utf-8"))      # Bytes(str): a quoted text literal in the program
         return pt.Bytes(bytes.fromhex(i[1]))
 
     def fill(self, inst, p, i, stmts):
